@@ -10,6 +10,11 @@ namespace pv {
 
 struct WfObjects {
     Model* m = nullptr;
+    Lattice* L = nullptr;
+    IndexClassification* IC = nullptr;
+    IndexHamiltonian* HS = nullptr;
+    Symmetrizer* SYM = nullptr;
+    bool ic_done = false, hs_done = false;
     StatesClassification* S = nullptr;
     Hamiltonian* H = nullptr;
     DensityMatrix* DM = nullptr;
@@ -26,15 +31,19 @@ struct WfObjects {
     double beta = 1.0;
     boost::mpi::communicator world;
 
+    // every object is constructed here, before IndexClassification::prepare() has run
     void construct(Model* mm, double b, int i, int j) {
-        m = mm; beta = b;
-        S = new StatesClassification(*m->IC, *m->Symm);
-        H = new Hamiltonian(*m->IC, *m->HS, *S);
+        m = mm; beta = b; L = m->L;
+        IC = new IndexClassification(L->getSiteMap());
+        HS = new IndexHamiltonian(L, *IC);
+        SYM = new Symmetrizer(*IC, *HS);
+        S = new StatesClassification(*IC, *SYM);
+        H = new Hamiltonian(*IC, *HS, *S);
         DM = new DensityMatrix(*S, *H, beta);
-        CX = new CreationOperator(*m->IC, *S, *H, j);
-        C = new AnnihilationOperator(*m->IC, *S, *H, i);
-        QA = new QuadraticOperator(*m->IC, *S, *H, i, j);
-        OPS = new FieldOperatorContainer(*m->IC, *S, *H);
+        CX = new CreationOperator(*IC, *S, *H, j);
+        C = new AnnihilationOperator(*IC, *S, *H, i);
+        QA = new QuadraticOperator(*IC, *S, *H, i, j);
+        OPS = new FieldOperatorContainer(*IC, *S, *H);
         GF = new GreensFunction(*S, *H, *C, *CX, *DM);
         X = new TwoParticleGF(*S, *H, *C, *C, *CX, *CX, *DM);
         SU = new Susceptibility(*S, *H, *QA, *QA, *DM);
@@ -46,12 +55,15 @@ struct WfObjects {
     }
 
     static const std::vector<std::string>& names() {
-        static std::vector<std::string> n = {"S", "H", "DM", "CX", "C", "QA", "OPS", "GF", "X", "SU", "EA", "V"};
+        static std::vector<std::string> n = {"IC", "HS", "SYM", "S", "H", "DM", "CX", "C", "QA", "OPS", "GF", "X", "SU", "EA", "V"};
         return n;
     }
 
     int fop_status(FieldOperator* f) { return (int)f->getStatus(); }
     int status(const std::string& o) {
+        if (o == "IC") return ic_done ? 2 : 0;           // no status of their own: finished once prepare() has run
+        if (o == "HS") return hs_done ? 2 : 0;
+        if (o == "SYM") return SYM->getStatus();
         if (o == "S") return S->getStatus();
         if (o == "H") return H->getStatus();
         if (o == "DM") return DM->getStatus();
@@ -91,7 +103,17 @@ struct WfObjects {
     // never touches anything that is undefined for an unfinished object
     std::string digest(const std::string& o) {
         std::string d = "st" + std::to_string(status(o)) + ";";
-        if (o == "S") {
+        if (o == "IC") {
+            d += "n" + std::to_string((int)IC->getIndexSize()) + ":";
+            if (ic_done) for (ParticleIndex k = 0; k < IC->getIndexSize(); ++k) { auto info = IC->getInfo(k); d += info.SiteLabel + "," + std::to_string((int)info.Orbital) + "," + std::to_string((int)info.Spin) + ";"; }
+        } else if (o == "HS") {
+            for (auto it = HS->begin(); it != HS->end(); ++it) {
+                for (auto& ci : it->first) d += std::string(boost::get<0>(ci) == Operator::creation ? "+" : "-") + std::to_string((int)boost::get<1>(ci));
+                d += "="; add(d, ComplexType(it->second));
+            }
+        } else if (o == "SYM") {
+            d += "ops" + std::to_string(SYM->getOperations().size());
+        } else if (o == "S") {
             for (auto b : S->StateBlockIndex) d += std::to_string((int)b) + ",";
             for (auto& v : S->StatesContainer) { d += "|"; for (auto& f : v) d += std::to_string(f.to_ulong()) + ","; }
         } else if (o == "H") {
@@ -154,7 +176,10 @@ struct WfObjects {
                 else if (o == "EA") EA->prepare();
                 else throw std::runtime_error("no such call");
             } else if (op == "compute") {
-                if (o == "S") S->compute();
+                if (o == "IC") { IC->prepare(m->sc.value("order_spins", false)); ic_done = true; }
+                else if (o == "HS") { HS->prepare(); hs_done = true; }
+                else if (o == "SYM") SYM->compute(false);
+                else if (o == "S") S->compute();
                 else if (o == "H") H->compute(world);
                 else if (o == "DM") DM->compute();
                 else if (o == "CX") CX->compute();
@@ -168,7 +193,10 @@ struct WfObjects {
                 else throw std::runtime_error("no such call");
             } else if (op == "get") {
                 volatile double sink = 0;
-                if (o == "S") sink = (int)S->getBlockNumber(FockState(m->IC->getIndexSize(), 0));
+                if (o == "IC") sink = (int)IC->getIndex(IC->getInfo(0));
+                else if (o == "HS") sink = std::distance(HS->begin(), HS->end());
+                else if (o == "SYM") sink = SYM->getOperations().size();
+                else if (o == "S") sink = (int)S->getBlockNumber(FockState(IC->getIndexSize(), 0));
                 else if (o == "H") sink = H->getEigenValue(0);
                 else if (o == "DM") sink = DM->getWeight(0);
                 else if (o == "CX") sink = CX->getBlockMapping().size();
@@ -200,7 +228,7 @@ struct WfObjects {
     }
 
     void canonical() {
-        const char* seq[][2] = {{"S", "compute"}, {"H", "prepare"}, {"H", "compute"}, {"DM", "prepare"}, {"DM", "compute"},
+        const char* seq[][2] = {{"IC", "compute"}, {"HS", "compute"}, {"SYM", "compute"}, {"S", "compute"}, {"H", "prepare"}, {"H", "compute"}, {"DM", "prepare"}, {"DM", "compute"},
                                 {"CX", "prepare"}, {"CX", "compute"}, {"C", "prepare"}, {"C", "compute"}, {"QA", "prepare"}, {"QA", "compute"},
                                 {"OPS", "prepare"}, {"OPS", "compute"}, {"GF", "prepare"}, {"GF", "compute"}, {"X", "prepare"}};
         for (auto& s : seq) { Res r = call(s[0], s[1]); if (r.out != "ok") throw std::runtime_error(std::string("canonical order failed at ") + s[0] + "." + s[1] + ": " + r.ex); }
@@ -211,9 +239,7 @@ struct WfObjects {
 inline void run_workflow(const json& sc) {
     json id = sc.value("id", json());
     Model m(sc);
-    if (!m.build_index()) { emit({{"e", "WFail"}, {"id", id}, {"fail", m.fail}}); return; }
-    bool ok = m.stage("symmetry", [&] { m.Symm = new Symmetrizer(*m.IC, *m.HS); m.Symm->compute(false); });
-    if (!ok) { emit({{"e", "WFail"}, {"id", id}, {"fail", m.fail}}); return; }
+    if (!m.build_lattice()) { emit({{"e", "WFail"}, {"id", id}, {"fail", m.fail}}); return; }
     double beta = std::stod(Model::beta_str(sc.value("beta", json("1.0"))));
     int i = sc.value("ij", json::array({0, 0}))[0].get<int>(), j = sc.value("ij", json::array({0, 0}))[1].get<int>();
     // canonical linear order on objects of their own
